@@ -1,4 +1,5 @@
 import Emerge.Props.C05
+import Emerge.Proofs.Utf8
 /-
   C13 — what emerge derives depends only on the token sequence, not on layout or padding.
 
@@ -134,5 +135,12 @@ theorem C13_separator (p : Pos) (a ws b : List Rune) (segsA : List Seg) (hne : a
 /-- Non-vacuity of `C13_separator`: `a = "ab"` is one IDENT run ending in state 40. -/
 example : seg genSpec Pos.start [97, 98] = ([⟨40, [97, 98], Pos.start⟩], .eof) ∧
     tokenState (lastState [⟨40, [97, 98], Pos.start⟩]) = true := by decide +kernel
+
+/-- **Bytes of a text**: the specification is read as UTF-8; for every text of Unicode scalar values, scanning the decoded
+    bytes of its encoding is scanning the text - whatever its length (no byte-level boundary plays a role). -/
+theorem C13_text_bytes (rs : List Rune) (h : ∀ r ∈ rs, Utf8.Scalar r) (fuel : Nat) (hf : rs.length ≤ fuel) :
+    tokensFrom Pos.start (Utf8.decode fuel (Utf8.encode rs)).1 = tokensFrom Pos.start rs ∧
+    (Utf8.decode fuel (Utf8.encode rs)).2 = .eof := by
+  rw [Utf8.decode_encode rs h fuel hf]; exact ⟨rfl, rfl⟩
 
 end Emerge.Props.C13
